@@ -14,6 +14,8 @@ namespace {
 
 template <typename L, bool Conc>
 void checkList(Case& c, L& l, const std::deque<int>& m, unsigned CS, bool tracked, bool useFront) {
+  if (!c.regOk())
+    return;
   const L& cl = l;
   c.eq("empty", l.empty(), m.empty());
   if (c.bad)
@@ -192,8 +194,10 @@ void runList(Case& c, const char* name) {
   bool useFront = c.rng.below(VERIF_ASAN ? 64 : 16) == 0; // front() is part of the per-step checks (rarer where a failed assert costs a process)
   unsigned nops = c.pickOps();
   std::string cfg = "cs" + std::to_string(cs) + (tracked ? "|tracked" : "|pod") + (useFront ? "|front" : "");
-  c.begin(name, cfg,
-          J().kv("chunk", cs).kv("elem", tracked ? "tracked" : "pod").kv("front_checked", useFront).kv("nops", nops));
+  if (!c.begin(name, cfg,
+          J().kv("chunk", cs).kv("elem", tracked ? "tracked" : "pod").kv("front_checked", useFront).kv("nops", nops),
+               useFront ? "front" : ""))
+    return;
   if (tracked)
     listCS<Tracked, Conc>(c, cs, useFront, nops);
   else
